@@ -133,6 +133,24 @@ def r2_real_headers(chk: Check) -> None:
         chk.undecided("C09.R2", ffd, "FailureData(case=..., headers=..., verify=...)", "return shape not recognised", ffd.loc())
     else:
         ID = "failure.case_id or parent_id"
+        # positive evidence of a mix-up: the case and the recorded request are looked up under DIFFERENT ids
+        import re as _re
+
+        def _ids(expr: ast.AST | None, table: str) -> set[str]:
+            out: set[str] = set()
+            for x_ in canon(ffd, expr, depth=5):
+                out |= set(_re.findall(r"self\." + table + r"\[([^\]]+)\]", x_))
+            return out
+
+        case_ids = _ids(kwarg(fdc[0], "case"), "cases")
+        hdr_ids = _ids(kwarg(fdc[0], "headers"), "interactions")
+        ver_ids = _ids(kwarg(fdc[0], "verify"), "interactions")
+        if case_ids and hdr_ids and not (case_ids & hdr_ids):
+            chk.violation("C09.R2", ffd, "the request headers belong to the case the command is built for",
+                          f"the case is looked up under `{sorted(case_ids)[0]}` but the recorded request under `{sorted(hdr_ids)[0]}`: for a failure reported on a DERIVED case (ignored_auth re-sends the request without / with invalid credentials) the command is printed with the PARENT's headers - it re-sends valid credentials the failing request did not carry",
+                          ffd.loc(fdc[0]))
+        if case_ids and ver_ids and not (case_ids & ver_ids):
+            chk.violation("C09.R2", ffd, "the verify flag belongs to the case the command is built for", f"case under `{sorted(case_ids)[0]}`, recorded response under `{sorted(ver_ids)[0]}`", ffd.loc(fdc[0]))
         hs_ = canon(ffd, kwarg(fdc[0], "headers"), depth=5)
         chk.expect(any(f"self.interactions[{ID}].request.headers.items()" in x for x in hs_), "C09.R2", ffd, "headers taken from the recorded request of that case", "headers are not those of the recorded request", ffd.loc())
         chk.expect(any(x == f"self.cases[{ID}].value" for x in canon(ffd, kwarg(fdc[0], "case"), depth=5)), "C09.R2", ffd, "failure's own case id first", "the failing case is not the one looked up", ffd.loc())
